@@ -31,7 +31,10 @@ ASSUMPTIONS = ["MOSEK back-end is exercised against the stand-in module in C11, 
 
 @st.composite
 def _case(draw, thorough):
-    m = draw(gen.model(max_steps=3 if thorough else 2, allow_nonsym_lmi=True))
+    if draw(st.integers(0, 3)) == 0:
+        m = draw(gen.wild_model(max_len=16 if thorough else 12))
+    else:
+        m = draw(gen.model(max_steps=3 if thorough else 2, allow_nonsym_lmi=True))
     o = draw(gen.solve_options(solvers=("CLARABEL", "CLARABEL", "CLARABEL", "SCS", None), allow_drh=True))
     return {"instrs": m["instrs"], "opts": o, "tags": m["meta"]["tags"], "cls": m["meta"]["cls"]}
 
